@@ -153,6 +153,37 @@ where
     if agree { s } else { format!("ENTRYPOINT-DISAGREES {} // {}", s, s2) }
 }
 
+/// A hasher that records every byte it is fed.
+#[derive(Default)]
+pub struct RecHasher(pub Vec<u8>);
+impl core::hash::Hasher for RecHasher {
+    fn write(&mut self, bytes: &[u8]) {
+        self.0.extend_from_slice(bytes);
+    }
+    fn finish(&self) -> u64 {
+        0
+    }
+}
+
+/// the byte feeds of TypeHash / AlignHash of `D`, their xxh3-64 and whether those are the header words
+pub fn feed_obs<D: TypeHash + AlignHash>(bytes: &Option<Vec<u8>>) -> String {
+    let mut th = RecHasher::default();
+    D::type_hash(&mut th);
+    let mut ah = RecHasher::default();
+    let mut off = 0usize;
+    D::align_hash(&mut ah, &mut off);
+    let h1 = xxhash_rust::xxh3::xxh3_64(&th.0);
+    let h2 = xxhash_rust::xxh3::xxh3_64(&ah.0);
+    let hdr = match bytes {
+        Some(b) if b.len() >= 29 => {
+            u64::from_le_bytes(b[13..21].try_into().unwrap()) == h1 && u64::from_le_bytes(b[21..29].try_into().unwrap()) == h2
+        }
+        _ => true,
+    };
+    format!("t={} a={} th={:x} ah={:x} hdr={}", if th.0.is_empty() { "-".to_string() } else { hex(&th.0) },
+            if ah.0.is_empty() { "-".to_string() } else { hex(&ah.0) }, h1, h2, if hdr { "y" } else { "n" })
+}
+
 pub fn hdr_obs(bytes: &[u8]) -> String {
     // magic 8, major 2, minor 2, usize 1, type hash 8, align hash 8, name len 8, name
     let th = u64::from_le_bytes(bytes[13..21].try_into().unwrap());
@@ -272,6 +303,13 @@ fn rle(codes: &[String]) -> String {
     out
 }
 
+/// the cut / failure positions tried: all of them when step <= 1, else the first and last 48
+/// and every step-th
+pub fn sampled(n: usize, step: usize, inclusive: bool) -> Vec<usize> {
+    let top = if inclusive { n + 1 } else { n };
+    (0..top).filter(|k| step <= 1 || *k < 48 || *k + 48 >= n || k % step == 0).collect()
+}
+
 fn class_of(s: &str) -> String {
     if s.starts_with("OK") {
         "OK".into()
@@ -358,6 +396,7 @@ where
                     out.push_str(&format!("{} hdr {}\n", cid, hdr_obs(b)));
                 }
             }
+            "feed" => out.push_str(&format!("{} feed {}\n", cid, feed_obs::<D>(&bytes))),
             "full" => {
                 if let Some(b) = &bytes {
                     out.push_str(&format!("{} full {}\n", cid, full_obs::<D>(b)));
@@ -394,7 +433,8 @@ where
                     let mut ec = vec![];
                     // the full stream stays behind each prefix: a read past the prefix would succeed
                     arena.place(0, b);
-                    for k in 0..b.len() {
+                    let step: usize = arg.parse().unwrap_or(1);
+                    for k in sampled(b.len(), step, false) {
                         fc.push(class_of(&full_obs::<D>(&b[..k])));
                         let placed = &arena.place(0, b)[..k];
                         ec.push(class_of(&eps_obs::<D>(placed)));
@@ -448,7 +488,8 @@ where
                 if bytes.is_some() {
                     // one object for every run (so that padding bytes are the same), except for
                     // iterator wrappers, which are consumed by serialization
-                    let same_obj = arg != "noagain";
+                    let same_obj = !arg.starts_with("noagain");
+                    let step: usize = arg.rsplit(':').next().and_then(|x| x.parse().ok()).unwrap_or(1);
                     let v = mk();
                     let b: Vec<u8> = if same_obj { ser_obs(&v).1.unwrap_or_default() } else { bytes.clone().unwrap() };
                     let b = &b;
@@ -460,7 +501,7 @@ where
                         }};
                     }
                     let mut codes = vec![];
-                    for k in 0..=n {
+                    for k in sampled(n, step, true) {
                         let mut w = FailAfter { limit: k, got: vec![] };
                         let r = run!(&mut w);
                         let c = ser_code(r, &w.got, b, same_obj);
@@ -533,7 +574,8 @@ where
                         parts.push(format!("{}={}", name, if s == plain { "same" } else { "DIFFERENT" }));
                     }
                     let mut codes = vec![];
-                    for k in 0..b.len() {
+                    let step: usize = arg.parse().unwrap_or(1);
+                    for k in sampled(b.len(), step, false) {
                         let mut r = FragReader { data: b, pos: 0, sizes: vec![5, 1, 9], intr: 0, calls: 0, failat: Some(k) };
                         let res = catch_unwind(AssertUnwindSafe(|| D::deserialize_full(&mut r)));
                         codes.push(match res {
@@ -585,8 +627,25 @@ where
                     out.push_str(&format!("{} tags {}\n", cid, parts.join(" ")));
                 }
             }
+            "cross" => {} // handled by cross_case, called by the generated code after run_case
             _ => panic!("unknown op {}", op),
         }
+    }
+}
+
+/// Bytes serialized as `S` read as the different type `U` (C04)
+pub fn cross_case<S: Serialize, U: Deserialize + TypeHash + AlignHash + Obs>(cid: &str, target: &str, mk: &dyn Fn() -> S, ops: &[String], arena: &mut Arena, out: &mut String)
+where
+    for<'a> DeserType<'a, U>: Obs,
+{
+    if !ops.iter().any(|o| o == "cross") {
+        return;
+    }
+    if let (_, Some(b)) = ser_obs(&mk()) {
+        let f = code_of(&full_obs::<U>(&b), false);
+        let placed = arena.place(0, &b);
+        let e = code_of(&eps_obs::<U>(placed), true);
+        out.push_str(&format!("{} cross:{} full={} eps={}\n", cid, target, f, e));
     }
 }
 
